@@ -177,6 +177,17 @@ class _Cap:
         return 0
 
 
+class _Script(oracles.Script):
+    """as oracles.Script, but a choices call asking for another k than scripted is answered anyway (padding with index 0 /
+    truncating), so that a wrong k reaches the checker as a concrete observation instead of a protocol error"""
+
+    def choices(self, population, weights=None, *, cum_weights=None, k=1):
+        idxs = list(self.take("choices", (population, weights, k)))
+        idxs = (idxs + [0] * k)[:k]
+        self.log.append(("choices", list(population), None if weights is None else list(weights), k, idxs))
+        return [population[i % len(population)] for i in idxs]
+
+
 def _impl_sample(case):
     from gcmpy.joint_degree.joint_degree_loaders.joint_degree_manual import JointDegreeManual
     from gcmpy.joint_degree.joint_degree_loaders.joint_degree_empirical import JointDegreeEmpirical
@@ -186,7 +197,7 @@ def _impl_sample(case):
         jdd[tuple(k)] = float(fr(w))
     before = list(jdd.items())
     loader = JointDegreeManual({JointDegreeNames.JDD: jdd, JointDegreeNames.MOTIF_SIZES: list(case["sizes"])})
-    script = oracles.Script([("choices", list(case["draws"]))] + [("randrange", r) for r in case["rs"]], default=_Cap())
+    script = _Script([("choices", list(case["draws"]))] + [("randrange", r) for r in case["rs"]], default=_Cap())
     with oracles.scripted(script):
         out = loader.sample_jds_from_jdd(case["N"])
     calls = [e for e in script.log if e[0] == "choices"]
